@@ -821,6 +821,9 @@ class Runner:
 
     def es_tie(self, entry, es, name, lb, ub, batch):
         """model-driven replay of the resample loop. Returns the predicted (batch, dim) array or None"""
+        if getattr(self, "mirror_lost", False):
+            self.count("es_tie_skipped_after_give_up")
+            return None
         stream_np, stream_q = [], []
         lo, hi = qbounds(lb), qbounds(ub)
         rounds = 0
@@ -829,7 +832,10 @@ class Runner:
             if res[0] == 0:
                 break
             if res[0] == 2 or rounds > 120:
+                # the mirrored generator has now consumed fewer draws than the emitter's: later asks of this history can no longer be
+                # replayed slot by slot (they are still checked for bounds, shape and dtype)
                 self.count("es_tie_gave_up")
+                self.mirror_lost = True
                 return None
             k = res[1]
             cand = self.es_candidates(es, name, k, rounds == 0, batch)
